@@ -593,4 +593,18 @@ def coincidence_symmetry(repo: Repo) -> RuleRun:
 
 coincidence_symmetry.rule_id = "C01.COINCIDENCE-SYMMETRY"
 
-RULES = [grade_before_write, consistency_reach, axis_table, count_carried, neighbour_symmetry, coincidence_symmetry]
+def grade_idempotent(repo: Repo) -> RuleRun:
+    """The count written for a block direction comes from the axis grading, the counts compared by the
+    consistency check from the wires: both must be rebuilt together on every grade() (same rule as C12)."""
+    from . import c12
+
+    res = c12.grade_idempotent(repo)
+    res.prop, res.rule = PROP, "C01.GRADE-IDEMPOTENT"
+    for f in res.findings:
+        f.property, f.rule = PROP, "C01.GRADE-IDEMPOTENT"
+    return res
+
+
+grade_idempotent.rule_id = "C01.GRADE-IDEMPOTENT"
+
+RULES = [grade_before_write, consistency_reach, axis_table, count_carried, neighbour_symmetry, coincidence_symmetry, grade_idempotent]
